@@ -542,7 +542,7 @@ fn c08_register_signed() {
 /// C01.P1: Watcher::filtered_block_connected for a block that contains the dispute of one stored appointment (blob good
 /// or garbled) plus an unrelated transaction: the cache learns the block, the breach is answered (tracker) or the
 /// garbled appointment (only) is deleted without refund, the height is recorded last.
-fn block_connected_step(blob_ok: bool) {
+fn block_connected_step(blob_ok: bool, verdict: Outcome) {
     let w = concrete_watcher(false, false);
     let ch: u32 = kani::any();
     w.responder.verif_set_carrier_height(ch);
@@ -555,7 +555,7 @@ fn block_connected_step(blob_ok: bool) {
         dbm.verif_push_appointment(uuid(77), ExtendedAppointment::new(appointment_with_blob(55, 7, 8, 8, 6), user(1), sig_of(b'p'), 2));
     }
     unsafe {
-        node::SCRIPT = Some(Outcome::Ok);
+        node::SCRIPT = Some(verdict);
         node::QUERY_SCRIPT = Some(Outcome::Rpc(-5));
     }
     let height: u32 = kani::any();
@@ -569,10 +569,16 @@ fn block_connected_step(blob_ok: bool) {
     let dbm = w.dbm.lock().unwrap();
     assert!(dbm.appointment_exists(uuid(77)), "C01.block: appointments that were not triggered stay");
     assert!(m0.map(|i| i.available_slots) == Some(bal) && d0.map(|i| i.available_slots) == Some(bal), "C07: no slot is refunded for a dropped appointment");
-    if blob_ok {
+    if blob_ok && verdict == Outcome::Ok {
         assert!(unsafe { node::N_SENT } == 1, "C01.block: the penalty is submitted while the block is handled");
         assert!(dbm.verif_tracker_row(the_uuid(0)).map_or(false, |t| t.dispute == DISPUTE && t.penalty == DISPUTE + 100 && t.status == ConfirmationStatus::InMempoolSince(ch)),
             "C01.block: the breached appointment becomes a tracker with exactly that dispute and penalty");
+    } else if blob_ok {
+        // the node refuses the penalty (-26 and the like) or says it is already in the chain (-27): no tracker can be
+        // created, so the appointment must not stay behind as "being watched" either
+        assert!(unsafe { node::N_SENT } == 1, "C01.block: the penalty is submitted while the block is handled");
+        assert!(!dbm.tracker_exists(the_uuid(0)), "C02: no tracker without the node having taken the penalty");
+        assert!(!dbm.appointment_exists(the_uuid(0)), "C01.block: a breached appointment is either responded (tracker) or dropped, never left as watched");
     } else {
         assert!(unsafe { node::N_SENT } == 0, "C02: nothing is sent for a blob that does not decrypt");
         assert!(!dbm.appointment_exists(the_uuid(0)) && !dbm.tracker_exists(the_uuid(0)), "C01.block: an appointment whose blob does not decrypt is dropped (only it)");
@@ -582,5 +588,7 @@ fn block_connected_step(blob_ok: bool) {
     std::mem::forget(txdata);
     std::mem::forget(w);
 }
-wc_harness!(c01_p1_block_connected_breach, block_connected_step(true));
-wc_harness!(c01_p1_block_connected_garbled, block_connected_step(false));
+wc_harness!(c01_p1_block_connected_breach, block_connected_step(true, Outcome::Ok));
+wc_harness!(c01_p1_block_connected_garbled, block_connected_step(false, Outcome::Ok));
+wc_harness!(c01_p1_block_connected_rejected, block_connected_step(true, Outcome::Rpc(-26)));
+wc_harness!(c01_p1_block_connected_already_in_chain, block_connected_step(true, Outcome::Rpc(-27)));
